@@ -565,9 +565,10 @@ def g7_task(payload):
                         witness=({"confirmed": bool(first), "source": src, "why": (first[0] if first else sorted(set(probs))[0])} if probs else None)))
         # ---- semantic: final units against the reference of their effective dialect
         final = {}
+        gbox = getattr(mod, "GBox", None)
         for r in mine:
             b = r.builder
-            if b.cls is not cls:
+            if b.cls is not cls and not (gbox is not None and b.cls is gbox and b.initial_type_args and b.dialect is None):
                 continue
             m = ast.parse(r.text)
             for n in m.body:
@@ -579,33 +580,37 @@ def g7_task(payload):
             direction, fmt, has_coder = unit_identity(name)
             oid = f"{pid}.G7{label}/{name}{'@' + dialect.__name__ if dialect is not None else ''}"
             b = r.builder
+            ucls = b.cls  # the class this unit (de)serializes: C, or the generic class specialised by the unit's type arguments
+            ref.PARAM_OVERRIDE.pop(gbox, None)
+            if ucls is not cls:
+                ref.PARAM_OVERRIDE[ucls] = dict(zip(getattr(ucls, "__parameters__", ()), b.initial_type_args))
             text_default = _default_branch_text(fn)
             if "CodeBuilder(" in text_default:
                 obs.append(dict(id=oid, status="refuted", unit=name, detail="after the first call the slot still holds a stub (no progress)", sample=r.text[:600]))
                 continue
-            decl = declared_params(cls).get((direction, fmt), {})
+            decl = (declared_params(ucls) or declared_params(cls)).get((direction, fmt), {})
             fmt_dialect = decl.get("dialect")
-            levels = [dialect, getattr(getattr(cls, "Config", None), "dialect", None), fmt_dialect]
+            levels = [dialect, getattr(getattr(ucls, "Config", None), "dialect", None), fmt_dialect]
             # pack and unpack formats may be named differently (orjson: jsonb / json)
-            genf = effective_genf(levels, nested_call(cls, fmt, dialect))
+            genf = effective_genf(levels, nested_call(ucls, fmt, dialect))
             try:
                 if direction == "from":
                     pt = g1.Point(())
                     object.__setattr__(pt, "exc_details", False)
                     object.__setattr__(pt, "dialect_value", dialect)
-                    res = g1.verify_from_dict(cls, fn, dict(r.globals), pt, view_factory=g4.make_dec_view(cls, genf, hooks={"call": units.unit_call_hook(uidx)}), inline=table,
+                    res = g1.verify_from_dict(ucls, fn, dict(r.globals), pt, view_factory=g4.make_dec_view(ucls, genf, hooks={"call": units.unit_call_hook(uidx)}), inline=table,
                                               pre_call=(decl.get("coder") if has_coder else None), hooks={"call": units.unit_call_hook(uidx)})
-                    obs.append(g4._ob(oid, res, r, "REF_DEC", cls))
+                    obs.append(g4._ob(oid, res, r, "REF_DEC", ucls))
                 else:
                     opts = effective_opts([("call", dialect), ("fmt", fmt_dialect)])
                     pp = g2.PPoint((), opts, False, ("D",) if "dialect" in [a.arg for a in fn.args.kwonlyargs] else ())
                     object.__setattr__(pp, "dialect_value", dialect)
                     lv = ("call", "cfgd", "cfg", "fmt")
                     unwrap = _make_unwrap(decl, b, fn) if has_coder else None
-                    res = g2.verify_to_dict(cls, fn, dict(r.globals), pp, lv, frozenset(), view_factory=g4.make_enc_view(cls, genf), inline=table,
+                    res = g2.verify_to_dict(ucls, fn, dict(r.globals), pp, lv, frozenset(), view_factory=g4.make_enc_view(ucls, genf), inline=table,
                                             unwrap=unwrap, hooks={"call": units.unit_call_hook(uidx)})
-                    ob = g4._ob(oid, res, r, "REF_ENC", cls)
-                    if ob["status"] != "proved" and not ob.get("witness"):
+                    ob = g4._ob(oid, res, r, "REF_ENC", ucls)
+                    if ob["status"] != "proved" and not ob.get("witness") and ucls is cls:
                         try:
                             ob["witness"] = concrete_witness(mod, p, cls, name, dialect, genf, decl, has_coder, b, src)
                         except Exception as e:  # noqa
@@ -613,6 +618,7 @@ def g7_task(payload):
                     obs.append(ob)
             except (pysym.NotInSubset, ref.Unsupported) as e:
                 obs.append(dict(id=oid, status="undecided", detail=f"outside the verified subset: {e}", unit=r.text[:600]))
+        ref.PARAM_OVERRIDE.pop(gbox, None)
         return {"obligations": obs}
     finally:
         build.drop_module(mod)
